@@ -121,7 +121,7 @@ class Engine(EngineBase):
                    + ["sp_set"] * 6 + ["sp_del"] * 2 + ["sp_nested"] * 2 + ["sp_assign"] * 2
                    + ["update_sp"] * 2 + ["move"] * 3 + ["clone"] * 3 + ["update_cache", "restart", "restart"]
                    + ["drop", "copy", "copy", "deepcopy", "pickle", "init_project", "rm_cache", "rm_workspace",
-                      "open_gone", "open_gone"])
+                      "open_gone", "open_gone", "buffered_move"])
             if rng.random() < (0.03 if tier == "quick" else 0.15):
                 mix += ["pickle_fresh"] * 2
             if P == "C03":
@@ -140,6 +140,8 @@ class Engine(EngineBase):
                 ops.append(o)
             elif k == "open_id":
                 ops.append([k, pi, h, rng.choice([32, 32, 32, "min", "min+1"])])
+            elif k == "buffered_move":
+                ops.append([k, h, rng.choice("pq"), "bm%d" % rng.randrange(10**6)])
             elif k == "open_gone":
                 # the full id of a job that existed earlier (removed / re-keyed / moved away since)
                 ops.append([k, pi, h, rng.choice(["doc", "doc", "init", "file", None])])
@@ -995,6 +997,36 @@ class Run:
         hd.group = self.new_group()
         self.mutations += 1
         self.probe("move_ok")
+
+    def op_buffered_move(self, op):
+        """with signac.buffered(): job.doc[k] = v; job.move(other project) - as one step (the observation after
+        it sees the block's result): the document change must arrive with the job."""
+        P = "C04"
+        hd = self._usable_for_doc(op)
+        if hd is None or hd.tainted:
+            return
+        src_pi, dst_pi = hd.proj, 1 - hd.proj
+        jid = cid(hd.sp)
+        if jid in self.model[dst_pi] or jid in self.emptydirs[dst_pi] or jid in self.emptydirs[src_pi] \
+                or jid in self.decoys[dst_pi]:
+            return  # the plain move's refusals are op_move's business
+
+        def f():
+            with self.signac.buffered():
+                hd.obj.doc[op[2]] = op[3]
+                hd.obj.move(self.projects[dst_pi])
+
+        exc, _ = self.call(f)
+        self.expect(exc, None, op, P)
+        j = self._ensure(hd)
+        j["doc"][op[2]] = norm(op[3])
+        del self.model[src_pi][jid]
+        self.model[dst_pi][jid] = j
+        self.taint_others(src_pi, jid, except_handle=hd)
+        hd.proj = dst_pi
+        hd.group = self.new_group()
+        self.mutations += 1
+        self.probe("buffered_move")
 
     def op_clone(self, op):
         P = "C04"
